@@ -307,7 +307,8 @@ Lemma get_ok_step w root n src :
   is_abs root = true -> valid_name n = true ->
   let '(e, p, l) := get w root n in
   ok_step (Some (allowed root n)) src w w l /\ e <> EInvalid /\ e <> EEmpty
-  /\ forall q, p = Some q -> q = child_path (allowed root n) (bin_name n).
+  /\ (forall q, p = Some q -> q = child_path (allowed root n) (bin_name n))
+  /\ (e = ENone -> p <> None).
 Proof.
   intros A V. set (b := child_path (allowed root n) (bin_name n)).
   assert (Ib : insideb (Some (allowed root n)) src b = true)
@@ -316,7 +317,7 @@ Proof.
   - split; [apply ok_refl; repeat constructor; exact Ib|].
     repeat split; try discriminate. intros q E. now inversion E.
   - split; [apply ok_refl; repeat constructor; exact Ib|].
-    repeat split; auto. discriminate.
+    repeat split; auto; try discriminate.
 Qed.
 
 (* the three operations that take a caller-supplied name *)
@@ -608,7 +609,7 @@ Lemma verdict_valid w root n newv ow src :
 Proof.
   intros A V. unfold install_verdict.
   pose proof (get_ok_step w root n src A V) as G.
-  destruct (get w root n) as [[ge gp] glog]. destruct G as (S & N1 & N2 & P).
+  destruct (get w root n) as [[ge gp] glog]. destruct G as (S & N1 & N2 & P & NN).
   assert (Ib : forall q, gp = Some q -> insideb (Some (allowed root n)) src q = true).
   { intros q E. rewrite (P q E). apply inside_a, within_allowed_bin, V. }
   assert (D : forall e, e <> EInvalid -> e <> ENone ->
@@ -621,10 +622,10 @@ Proof.
   - destruct (run_meta w p n) as [om oran].
     assert (S2 : ok_step (Some (allowed root n)) src w w (glog ++ [EExec p oran])).
     { eapply ok_app; [exact S|]. apply ok_refl. repeat constructor. now apply Ib. }
-    destruct ow; [split; [exact S2 | split; discriminate]|].
-    destruct om as [|oldv|]; try (split; [exact S2 | split; discriminate]).
-    destruct (newv ?= oldv)%N; (split; [exact S2 | split; discriminate]).
-  - cbn. destruct ow; cbn; (split; [exact S | split; discriminate]).
+    destruct ow; [cbn; split; [exact S2 | split; discriminate]|].
+    destruct om as [|oldv|]; try (cbn; split; [exact S2 | split; discriminate]).
+    destruct (newv ?= oldv)%N; cbn; (split; [exact S2 | split; discriminate]).
+  - exfalso. now apply NN.
 Qed.
 
 (* --- clean up and copy --- *)
@@ -719,7 +720,7 @@ Proof.
     - right. exists n. destruct (install_core_valid w w1 root n file s ff ow log A V NS WF S) as (S2 & N).
       auto.
     - left. now apply install_core_invalid. }
-  unfold candidates in CORE.
+  unfold candidates in CORE |- *.
   destruct (stat w s) as [| |[|x m]] eqn:ST.
   - left. cbn. split; [exact St | discriminate].
   - left. cbn. split; [exact St | discriminate].
@@ -736,3 +737,281 @@ Proof.
       * left. cbn. split; [|discriminate]. apply ok_refl. repeat constructor; exact Is.
     + left. cbn. split; [exact St | discriminate].
 Qed.
+
+(* ------------------------------------------------------------------ *)
+(* 7. from steps to observations                                       *)
+
+Lemma filter_nil_in {A} (f : A -> bool) l : (forall x, In x l -> f x = false) -> filter f l = [].
+Proof.
+  induction l as [|x l IH]; intros H; cbn; [reflexivity|].
+  rewrite (H x (or_introl eq_refl)). apply IH. intros y Hy. apply H. now right.
+Qed.
+
+Lemma node_eqb_refl n : node_eqb n n = true.
+Proof.
+  destruct n as [|x [[s v]|]]; cbn; auto.
+  - now rewrite eqb_reflx, string_eqb_refl, N.eqb_refl.
+  - now rewrite eqb_reflx.
+Qed.
+
+Lemma node_eqb_eq a b : node_eqb a b = true -> a = b.
+Proof.
+  destruct a as [|x [[s v]|]], b as [|y [[t u]|]]; cbn; try discriminate; auto.
+  - rewrite !andb_true_iff. intros (E1 & E2 & E3).
+    apply eqb_prop in E1. apply String.eqb_eq in E2. apply N.eqb_eq in E3. now subst.
+  - rewrite andb_true_iff. intros (E1 & E2). discriminate.
+  - rewrite andb_true_iff. intros (E1 & E2). discriminate.
+  - rewrite andb_true_r. intros E1. apply eqb_prop in E1. now subst.
+Qed.
+
+Lemma opt_node_eqb_eq o n : opt_eqb node_eqb o (Some n) = true <-> o = Some n.
+Proof.
+  destruct o as [m|]; cbn; [|split; discriminate]. split.
+  - intros H. apply node_eqb_eq in H. now subst.
+  - intros H. inversion H. apply node_eqb_refl.
+Qed.
+
+Lemma removed_same w : removed w w = [].
+Proof.
+  unfold removed. rewrite filter_nil_in; [reflexivity|].
+  intros [p n] H. cbn. pose proof (in_lookup_some _ _ _ H). now destruct (fs_lookup p w).
+Qed.
+
+Lemma written_same w : written w w = [].
+Proof. unfold written. apply filter_nil_in. intros x _. apply andb_negb_r. Qed.
+
+Lemma written_remove_all a w : written w (fs_remove_all a w) = [].
+Proof.
+  unfold written. apply filter_nil_in. intros x _. rewrite lookup_remove_all.
+  destruct (withinb a (fst x)); [reflexivity | apply andb_negb_r].
+Qed.
+
+Lemma exec_inside a src l :
+  log_inside a src l -> forallb (insideb a src) (ran_paths l) = true.
+Proof.
+  intros L. apply forallb_forall. intros p H. unfold ran_paths in H.
+  apply in_flat_map in H as (e & He & Hp).
+  unfold log_inside in L. rewrite Forall_forall in L. specialize (L e He).
+  destruct e; cbn in Hp; try contradiction. destruct ran; [|contradiction].
+  destruct Hp as [<- | []]. exact L.
+Qed.
+
+Lemma removed_inside a src w w' :
+  frame a src w w' -> forallb (insideb a src) (removed w w') = true.
+Proof.
+  intros F. apply forallb_forall. intros p H. unfold removed in H.
+  apply in_map_iff in H as ([q n] & <- & H). apply filter_In in H as (Hin & Hn). cbn in *.
+  pose proof (in_lookup_some _ _ _ Hin) as NN.
+  destruct (F q) as [E | [I | (a0 & _ & _ & D & _)]]; [| exact I |].
+  - rewrite E in Hn. now destruct (fs_lookup q w).
+  - rewrite D in Hn. discriminate.
+Qed.
+
+Lemma mem_str_in x l : In x l -> mem_str x l = true.
+Proof.
+  intros H. unfold mem_str. apply existsb_exists. exists x. split; [exact H | apply string_eqb_refl].
+Qed.
+
+Lemma written_inside a src w w' :
+  frame a src w w' ->
+  forallb (fun e =>
+     insideb a src (fst e)
+     || match a with
+        | Some a0 => is_dir_node (snd e) && is_none (fs_lookup (fst e) w)
+                     && mem_str (fst e) (prefixes a0)
+        | None => false
+        end) (written w w') = true.
+Proof.
+  intros F. apply forallb_forall. intros [q n] H. unfold written in H.
+  apply filter_In in H as (_ & H). cbn [fst snd] in *.
+  apply andb_true_iff in H as (H1 & H2). apply opt_node_eqb_eq in H1.
+  apply negb_true_iff in H2.
+  destruct (F q) as [E | [I | (a0 & Ea & N & D & P)]].
+  - rewrite E in H1. apply opt_node_eqb_eq in H1. congruence.
+  - now rewrite I.
+  - subst a. rewrite H1 in D. inversion D. subst n. rewrite N. cbn.
+    rewrite (mem_str_in _ _ P). apply orb_true_r.
+Qed.
+
+Lemma contained_model i a src :
+  ok_step a src (world i) (r_fs (exec_op i)) (r_log (exec_op i)) ->
+  contained i (model i) a src = true.
+Proof.
+  intros (L & F & _). unfold contained, model. cbn.
+  rewrite (exec_inside _ _ _ L). cbn.
+  destruct (existsb mutating (r_log (exec_op i))); cbn; [|reflexivity].
+  rewrite (removed_inside _ _ _ _ F). cbn. apply (written_inside _ _ _ _ F).
+Qed.
+
+(* without a mutating effect the file system is the initial one *)
+Lemma exec_op_pure i :
+  wf i = true -> existsb mutating (r_log (exec_op i)) = false -> r_fs (exec_op i) = world i.
+Proof.
+  unfold wf. rewrite andb_true_iff. intros (A & W) Pu.
+  destruct (i_op i) as [name|name|name|s ow|ex es|name] eqn:O.
+  1-3: assert (NO : name_op i name) by (unfold name_op; rewrite O; auto);
+       destruct (valid_name name) eqn:V;
+       [ destruct (name_op_step i name A NO V) as ((_ & _ & M) & _); exact (M Pu)
+       | destruct (name_op_invalid i name NO V) as (_ & _ & F); exact F ].
+  - rewrite !andb_true_iff, negb_true_iff in W. destruct W as ((_ & _) & NS).
+    apply String.eqb_neq in NS.
+    pose proof (install_contained (world i) (i_root i) s ow A NS) as IC.
+    unfold exec_op in *. rewrite O in *. cbn zeta in IC.
+    destruct IC as [((_ & _ & M) & _) | (n & _ & _ & _ & (_ & _ & M))]; now apply M.
+  - unfold exec_op. now rewrite O.
+  - unfold exec_op. now rewrite O.
+Qed.
+
+(* the observed difference is always the difference of the two file systems *)
+Lemma model_diff_exact i :
+  wf i = true ->
+  o_removed (model i) = removed (world i) (r_fs (exec_op i))
+  /\ o_written (model i) = written (world i) (r_fs (exec_op i)).
+Proof.
+  intros W. unfold model. cbn.
+  destruct (existsb mutating (r_log (exec_op i))) eqn:M; [now split|].
+  rewrite (exec_op_pure i W M). now rewrite removed_same, written_same.
+Qed.
+
+(* --- the oracle on the three name operations --- *)
+Lemma name_ok_rejected i o isv isu name :
+  o_err o = EInvalid -> no_effects o = true -> name_ok i o isv isu name = true.
+Proof. intros E N. unfold name_ok. now rewrite E. Qed.
+
+Lemma name_ok_blank i o isu name :
+  o_err o = EEmpty -> all_space name = true -> no_effects o = true ->
+  name_ok i o true isu name = true.
+Proof. intros E S N. unfold name_ok. now rewrite E, S, N. Qed.
+
+Lemma name_ok_accepted i o isv isu name :
+  o_err o <> EInvalid -> o_err o <> EEmpty -> safe_name name = true ->
+  contained i o (Some (allowed (i_root i) name)) None = true ->
+  o_written o = [] -> (if isu then o_exec o = [] else o_removed o = []) ->
+  name_ok i o isv isu name = true.
+Proof.
+  intros N1 N2 S C Wr X. unfold name_ok. rewrite S, C, Wr. cbn.
+  destruct (o_err o); try congruence; destruct isu; now rewrite X.
+Qed.
+
+Lemma model_no_effects i :
+  r_log (exec_op i) = [] -> no_effects (model i) = true.
+Proof. intros L. unfold no_effects, model. cbn. now rewrite L. Qed.
+
+Lemma name_ops_meet_oracle i name isv isu :
+  is_abs (i_root i) = true ->
+  (i_op i = OGet name /\ isv = false /\ isu = false)
+  \/ (i_op i = OUninstall name /\ isv = false /\ isu = true)
+  \/ (i_op i = OVerify name /\ isv = true /\ isu = false) ->
+  name_ok i (model i) isv isu name = true.
+Proof.
+  intros A H.
+  assert (NO : name_op i name) by (unfold name_op; tauto).
+  destruct (valid_name name) eqn:V.
+  - destruct (name_op_step i name A NO V) as (S & N1 & N2).
+    pose proof (contained_model i _ _ S) as C.
+    destruct (err_eqb (r_err (exec_op i)) EEmpty) eqn:EE.
+    + assert (E : r_err (exec_op i) = EEmpty) by (destruct (r_err (exec_op i)); now try discriminate).
+      destruct (N2 E) as (Ov & Sp & Lg & _).
+      destruct H as [(O & _) | [(O & _) | (O & -> & ->)]]; try congruence.
+      apply name_ok_blank; [exact E | exact Sp | now apply model_no_effects].
+    + assert (E : r_err (exec_op i) <> EEmpty) by (intros E; rewrite E in EE; discriminate).
+      apply name_ok_accepted; auto; [now apply valid_name_safe | |].
+      * (* nothing is written *)
+        unfold model. cbn.
+        destruct (existsb mutating (r_log (exec_op i))) eqn:M; [|reflexivity].
+        destruct H as [(O & _) | [(O & _) | (O & _)]]; unfold exec_op in *; rewrite O in *.
+        -- destruct (get_meta_valid (world i) (i_root i) name A V) as (_ & _ & _ & L).
+           destruct L as [L | [ran L]]; rewrite L in M; discriminate.
+        -- destruct (uninstall_valid (world i) (i_root i) name A V) as [U | (e & _ & _ & _ & U)];
+             rewrite U in *; cbn in *; [apply written_remove_all | discriminate].
+        -- destruct (all_space name) eqn:SP.
+           ++ rewrite (verify_lookup_blank _ _ _ SP) in M. discriminate.
+           ++ rewrite (verify_lookup_nonblank _ _ _ SP) in M. cbn in M.
+              destruct (get_meta_valid (world i) (i_root i) name A V) as (_ & _ & _ & L).
+              destruct L as [L | [ran L]]; rewrite L in M; discriminate.
+      * destruct H as [(O & _ & ->) | [(O & _ & ->) | (O & _ & ->)]];
+          unfold model, exec_op in *; rewrite O in *; cbn.
+        -- destruct (get_meta_valid (world i) (i_root i) name A V) as (_ & _ & _ & L).
+           destruct L as [L | [ran L]]; rewrite L; reflexivity.
+        -- destruct (uninstall_valid (world i) (i_root i) name A V) as [U | (e & _ & _ & _ & U)];
+             rewrite U; reflexivity.
+        -- destruct (all_space name) eqn:SP.
+           ++ now rewrite (verify_lookup_blank _ _ _ SP).
+           ++ rewrite (verify_lookup_nonblank _ _ _ SP). cbn.
+              destruct (get_meta_valid (world i) (i_root i) name A V) as (_ & _ & _ & L).
+              destruct L as [L | [ran L]]; rewrite L; reflexivity.
+  - destruct (name_op_invalid i name NO V) as (E & L & F).
+    pose proof (model_no_effects i L) as NE.
+    destruct E as [E | E]; [now apply name_ok_rejected|].
+    (* EEmpty: only the verifier, on a blank attribute *)
+    destruct H as [(O & _) | [(O & _) | (O & -> & ->)]]; unfold exec_op in E; rewrite O in E.
+    + rewrite (get_meta_invalid _ _ _ V) in E. discriminate.
+    + rewrite (uninstall_invalid _ _ _ V) in E. discriminate.
+    + destruct (all_space name) eqn:SP.
+      * apply name_ok_blank; auto. unfold model, exec_op. now rewrite O, (verify_lookup_blank _ _ _ SP).
+      * rewrite (verify_lookup_nonblank _ _ _ SP), (get_meta_invalid _ _ _ V) in E. discriminate.
+Qed.
+
+Lemma install_meets_oracle i s ow :
+  is_abs (i_root i) = true -> s <> "/" -> i_op i = OInstall s ow ->
+  install_ok i (model i) s = true.
+Proof.
+  intros A NS O.
+  pose proof (install_contained (world i) (i_root i) s ow A NS) as IC. cbn zeta in IC.
+  assert (EX : exec_op i = install (world i) (i_root i) s ow) by (unfold exec_op; now rewrite O).
+  rewrite <- EX in IC. unfold install_ok.
+  change (o_err (model i)) with (r_err (exec_op i)).
+  destruct IC as [(S & N) | (n & Ic & V & N & S)].
+  - rewrite (contained_model i _ _ S). destruct (r_err (exec_op i)); auto. congruence.
+  - assert (X : existsb (fun n0 => safe_name n0
+               && contained i (model i) (Some (allowed (i_root i) n0)) (Some s))
+              (candidates (world i) s) = true).
+    { apply existsb_exists. exists n. split; [exact Ic|].
+      now rewrite (valid_name_safe _ V), (contained_model i _ _ S). }
+    rewrite X. destruct (r_err (exec_op i)); auto using orb_true_r. congruence.
+Qed.
+
+Lemma model_spec_ok i : wf i = true -> spec_ok i (model i) = true.
+Proof.
+  unfold wf. rewrite andb_true_iff. intros (A & W). unfold spec_ok.
+  destruct (i_op i) as [name|name|name|s ow|ex es|name] eqn:O.
+  - apply name_ops_meet_oracle; auto.
+  - apply name_ops_meet_oracle; auto.
+  - apply name_ops_meet_oracle; auto 6.
+  - rewrite !andb_true_iff, negb_true_iff in W. destruct W as (_ & NS).
+    apply String.eqb_neq in NS. eapply install_meets_oracle; eauto.
+  - unfold model, exec_op. rewrite O. cbn. unfold list_plugins.
+    destruct ex; cbn; apply (proj2 (list_eqb_spec String.eqb String.eqb_eq _ _)); reflexivity.
+  - unfold model, exec_op. rewrite O. cbn.
+    destruct (single_componentb name) eqn:S; [|reflexivity]. rewrite A. cbn.
+    apply String.eqb_eq. apply pjoin_single; [exact A | exact S].
+Qed.
+
+(* ------------------------------------------------------------------ *)
+(* 8. listing, the verifier's use of the name                          *)
+
+Lemma list_exact ex es n :
+  In n (list_plugins ex es) <-> ex = true /\ In (n, KDir) es.
+Proof.
+  unfold list_plugins. destruct ex.
+  - rewrite in_map_iff. split.
+    + intros ([m k] & <- & H). apply filter_In in H as (H & K). cbn in *.
+      destruct k; try discriminate. auto.
+    + intros (_ & H). exists (n, KDir). split; [reflexivity|]. apply filter_In. auto.
+  - cbn. split; [tauto | intros (E & _); discriminate].
+Qed.
+
+Lemma list_missing_root es : list_plugins false es = [].
+Proof. reflexivity. Qed.
+
+Lemma verify_calls_spec name :
+  (all_space name = true /\ verify_calls name = [])
+  \/ (all_space name = false /\ verify_calls name = [CGet name]).
+Proof. unfold verify_calls. destruct (all_space name); auto. Qed.
+
+Lemma verify_lookup_is_get w root name :
+  all_space name = false ->
+  let r := verify_lookup w root name in
+  let g := get_meta w root name in
+  r_err r = r_err g /\ r_log r = r_log g /\ r_fs r = r_fs g.
+Proof. intros S. rewrite (verify_lookup_nonblank _ _ _ S). cbn. auto. Qed.
